@@ -108,7 +108,16 @@ try:
         os.makedirs(f"/tmp/verif-shadow/target{lane}", exist_ok=True)
         os.symlink(f"/tmp/verif-shadow/target{lane}", os.path.join(shadow, "harness", "target"))
         res = run_checks(shadow, {"C19_REPO": wt, "C20_REPO": wt})
-        json.dump(res, open(os.path.join(d, f"result-{tier}.json"), "w"), indent=1)
+        rf = os.path.join(d, f"result-{tier}.json")
+        old = json.load(open(rf)) if os.path.exists(rf) else {}
+        if isinstance(old, dict):
+            # keep the history of earlier runs of the same check (before a monitor was strengthened)
+            for k, v in res.items():
+                if k in old and old[k].get("exit") != v.get("exit"):
+                    v["earlier"] = {"exit": old[k].get("exit"), "lines": old[k].get("lines", [])[:2]}
+            old.update(res)
+            res = old
+        json.dump(res, open(rf, "w"), indent=1)
 finally:
     sh(["git", "-C", "/repo", "worktree", "remove", "--force", wt])
     shutil.rmtree(shadow, ignore_errors=True)
